@@ -31,6 +31,7 @@ def main (args : List String) : IO UInt32 := do
   match args with
   | ["c07", model] => loop stdin stdout (Naga.Driver.C07.handle model); return 0
   | ["c07msl"] => loop stdin stdout Naga.Driver.C07.handleMsl; return 0
+  | ["c07glsl"] => loop stdin stdout Naga.Driver.C07.handleGlsl; return 0
   | ["c18"] => loop stdin stdout Naga.Driver.C18.handle; return 0
   | ["c16"] => loop stdin stdout Naga.Driver.C16.handle; return 0
   | ["c08"] => loop stdin stdout Naga.Driver.C08.handle; return 0
